@@ -27,22 +27,7 @@ SUB_ATOMS = ["(p o3)", "(q o3 o1)", "(r)"]
 M_ATOMS = ["(m o3 o1)", "(m o3 o2)", "(q o1 o2)"]
 
 
-def via_trajectory_parser(world, state, with_problem=True):
-    """rebuild every fact and every fluent of `state` the way TrajectoryParser builds them: given the problem (facts and
-    fluents annotated with the objects' own types) or without it (annotated with the declared parameter types)"""
-    from pddl_plus_parser.lisp_parsers import TrajectoryParser
-    parser = TrajectoryParser(world.domain, world.problem if with_problem else None)
-    for key, facts in list(state.state_predicates.items()):
-        state.state_predicates[key] = {
-            parser.parse_grounded_predicate(lib._ast(gp.untyped_representation), world.domain.predicates[gp.name]) for gp in facts}
-    rebuilt = {}
-    for key, fl in state.state_fluents.items():
-        nf = parser.parse_grounded_numeric_fluent(lib._ast(lib.fluent_name(fl)))
-        nf.set_value(fl.value)
-        rebuilt[nf.untyped_representation] = nf
-    state.state_fluents.clear()
-    state.state_fluents.update(rebuilt)
-    return state
+via_trajectory_parser = lib.via_trajectory_parser
 
 FLUENTS = ["(f o1)", "(g)", "(h o2 o2)"]
 
